@@ -56,19 +56,23 @@ def cases(tier, seed):
                     if nanp == "coord" and shp[0] == 1:
                         continue  # (would leave a dataset without any data)
                     j += 1
-                    if tier == "quick" and j % 3:
+                    hk = ["lines", list(shp), list(assign), nanp]
+                    if tier == "quick" and core.pick(hk + ["thin"], 3):
                         continue
                     yield {"mode": "lines", "shape": list(shp),
                            "assign": list(assign), "nan": nanp,
-                           "ctypes": [(j + i) % 2 for i in range(k)],
-                           "join": j % 4 == 0,
-                           # explicit order: 1 = all values reversed, 2 = a
+                           "ctypes": [core.pick(hk + ["ct", i], 2)
+                                      for i in range(k)],
+                           "join": core.pick(hk + ["join"], 4) == 0,
+                           # explicit order: 1 = all values reordered, 2 = a
                            # reordered selection of them
-                           "order": (1 + (j // 5) % 2) if j % 5 == 0 else 0,
+                           "order": (1 + core.pick(hk + ["ord2"], 2))
+                           if core.pick(hk + ["ord"], 4) == 0 else 0,
                            # the order the variable's dimensions are stored
                            # in (vs. the dataset's own dimension order)
-                           "stored": (j // 3) % 3,
-                           "unmapped": j % 7 == 0 and k >= 2}
+                           "stored": core.pick(hk + ["stored"], 3),
+                           "unmapped": core.pick(hk + ["unm"], 7) == 0
+                           and k >= 2}
     # fused dimensions
     for p, nanp in itertools.product(("color", "marker", "linestyle", "row"),
                                      ("none", "point")):
